@@ -39,4 +39,6 @@ def c_stability(c, mode):
         c.check("C09: restoring a snapshot replays exactly the values that followed it; one RandState seeds several replays",
                 r["replays"][0] == base["seq"][4:] and r["replays"][1] == base["seq"][4:],
                 info="replays %r want %r" % (r["replays"], base["seq"][4:]))
+        c.check("C09: a state made from a numeric seed and a string is the same in every process", r["named"] == base["named"],
+                info="got %r want %r" % (r["named"], base["named"]))
         c.check("C09: without an explicit state the values are fixed by Python's global random seed", r["default"] == base["default"])
